@@ -22,6 +22,8 @@ import (
 	"encoding/json"
 	"fmt"
 	"reflect"
+	"sort"
+	"strings"
 	"testing"
 	"time"
 
@@ -35,15 +37,25 @@ var bigIntPtrType = reflect.TypeOf((*big.Int)(nil))
 
 type c17Leaf struct {
 	path string
-	v    reflect.Value // settable *big.Int
+	get  func() *big.Int
+	set  func(*big.Int)
 }
 
+// c17Leaves collects every transmitted big integer of a proof: exported struct fields, slices, arrays
+// and maps (of integers, of slices of integers, of structs), with a setter for each.
 func c17Leaves(v reflect.Value, path string, out *[]c17Leaf) {
 	switch v.Kind() {
 	case reflect.Ptr:
 		if v.Type() == bigIntPtrType {
 			if v.CanSet() {
-				*out = append(*out, c17Leaf{path, v})
+				v := v
+				*out = append(*out, c17Leaf{path, func() *big.Int { return v.Interface().(*big.Int) }, func(x *big.Int) {
+					if x == nil {
+						v.Set(reflect.Zero(bigIntPtrType))
+					} else {
+						v.Set(reflect.ValueOf(x))
+					}
+				}})
 			}
 			return
 		}
@@ -61,6 +73,40 @@ func c17Leaves(v reflect.Value, path string, out *[]c17Leaf) {
 	case reflect.Slice, reflect.Array:
 		for i := 0; i < v.Len(); i++ {
 			c17Leaves(v.Index(i), fmt.Sprintf("%s[%d]", path, i), out)
+		}
+	case reflect.Map:
+		keys := v.MapKeys()
+		sort.Slice(keys, func(i, j int) bool { return fmt.Sprint(keys[i].Interface()) < fmt.Sprint(keys[j].Interface()) })
+		for _, k := range keys {
+			k := k
+			kp := fmt.Sprintf("%s{%v}", path, k.Interface())
+			el := v.MapIndex(k)
+			if el.Type() == bigIntPtrType {
+				m := v
+				*out = append(*out, c17Leaf{kp, func() *big.Int { return m.MapIndex(k).Interface().(*big.Int) }, func(x *big.Int) {
+					if x == nil {
+						m.SetMapIndex(k, reflect.Zero(bigIntPtrType))
+					} else {
+						m.SetMapIndex(k, reflect.ValueOf(x))
+					}
+				}})
+				continue
+			}
+			switch el.Kind() {
+			case reflect.Slice, reflect.Ptr:
+				c17Leaves(el, kp, out) // elements of a slice / pointee are addressable
+			default:
+				// map of structs: work on an addressable copy and store it back through the setter
+				cp := reflect.New(el.Type()).Elem()
+				cp.Set(el)
+				var inner []c17Leaf
+				c17Leaves(cp, kp, &inner)
+				m := v
+				for _, lf := range inner {
+					lf := lf
+					*out = append(*out, c17Leaf{lf.path, lf.get, func(x *big.Int) { lf.set(x); m.SetMapIndex(k, cp) }})
+				}
+			}
 		}
 	}
 }
@@ -90,9 +136,15 @@ func c17Component(r *vkit.Report, name string, proofPtr any, honest []*big.Int, 
 	c17Leaves(reflect.ValueOf(proofPtr).Elem(), "", &leaves)
 	r.Sample(map[string]any{"component": name, "leaves": len(leaves), "commitments": len(honest)})
 	for li, lf := range leaves {
-		orig := lf.v.Interface().(*big.Int)
+		orig := lf.get()
 		if orig == nil {
 			continue
+		}
+		if _, mine := r.Next(); !mine {
+			continue
+		}
+		if r.Expired() {
+			return
 		}
 		type mut struct {
 			class string
@@ -100,7 +152,7 @@ func c17Component(r *vkit.Report, name string, proofPtr any, honest []*big.Int, 
 		}
 		muts := []mut{{"+1", new(big.Int).Add(orig, big.NewInt(1))}, {"=0", big.NewInt(0)}, {"=nil", nil}, {"-1", new(big.Int).Sub(orig, big.NewInt(1))}}
 		if li+1 < len(leaves) {
-			if nx := leaves[li+1].v.Interface().(*big.Int); nx != nil && nx.Cmp(orig) != 0 {
+			if nx := leaves[li+1].get(); nx != nil && nx.Cmp(orig) != 0 {
 				muts = append(muts, mut{"=next-leaf", new(big.Int).Set(nx)})
 			}
 		}
@@ -108,17 +160,13 @@ func c17Component(r *vkit.Report, name string, proofPtr any, honest []*big.Int, 
 			if m.val != nil && m.val.Cmp(orig) == 0 {
 				continue
 			}
-			if m.val == nil {
-				lf.v.Set(reflect.Zero(bigIntPtrType))
-			} else {
-				lf.v.Set(reflect.ValueOf(m.val))
-			}
+			lf.set(m.val)
 			r.Eval()
 			r.Nontrivial(name + lf.path + m.class)
 			var ok bool
 			var list []*big.Int
 			pan, msg := vkit.Guard(func() { ok, list = verify() })
-			lf.v.Set(reflect.ValueOf(orig))
+			lf.set(orig)
 			switch {
 			case pan:
 				r.Count("panic while verifying an altered component proof (not accepted)", 1)
@@ -129,6 +177,140 @@ func c17Component(r *vkit.Report, name string, proofPtr any, honest []*big.Int, 
 			default:
 				r.Outcome(name + ":" + m.class + ":rejected")
 			}
+		}
+	}
+}
+
+// c17Degenerate: Fiat-Shamir forgery handles.  All big-integer leaves of the component proof and of
+// the proofs it takes its bases from are grouped by field name; every assignment of {keep, 0, P, 2P}
+// to the groups is applied (all of them for <= 6 groups, else every assignment with <= 2 groups changed
+// plus the uniform ones) and the verifier's reconstruction is run under three different challenges.
+// A proof object that passes the structure check and reconstructs to the SAME commitment list (without a
+// zero entry, which the top-level verifier refuses) whatever
+// the challenge is verifies under the challenge its sender computes from that list: whoever can write
+// it down proves the component's statement without knowing any witness.
+func c17Degenerate(r *vkit.Report, name string, P *big.Int, ptrs []any, verify func(c *big.Int) (bool, []*big.Int)) {
+	var leaves []c17Leaf
+	for _, ptr := range ptrs {
+		c17Leaves(reflect.ValueOf(ptr).Elem(), "", &leaves)
+	}
+	classOf := func(path string) string {
+		// last field name, array indices dropped
+		out := path
+		if i := strings.LastIndex(out, "."); i >= 0 {
+			out = out[i+1:]
+		}
+		if i := strings.Index(out, "["); i >= 0 {
+			out = out[:i]
+		}
+		return out // a map key stays part of the group name: Results{x} and Results{y} are set independently
+	}
+	byClass := map[string][]c17Leaf{}
+	var classes []string
+	for _, lf := range leaves {
+		if lf.get() == nil {
+			continue
+		}
+		c := classOf(lf.path)
+		if _, ok := byClass[c]; !ok {
+			classes = append(classes, c)
+		}
+		byClass[c] = append(byClass[c], lf)
+	}
+	sort.Strings(classes)
+	orig := map[string][]*big.Int{}
+	for c, ls := range byClass {
+		for _, lf := range ls {
+			orig[c] = append(orig[c], lf.get())
+		}
+	}
+	// only values that are not elements of the group: with the identity 1 = g^0 h^0 the sender does know an
+	// opening, so a challenge-independent transcript is then no forgery (the whole-proof forgery sub-check,
+	// whose oracle is exact, tries 1 and P-1 as well)
+	values := []*big.Int{nil, big.NewInt(0), new(big.Int).Set(P), new(big.Int).Lsh(P, 1)}
+	vname := []string{"keep", "0", "P", "2P"}
+	n := len(classes)
+	var assigns [][]int
+	if n <= 6 {
+		total := 1
+		for i := 0; i < n; i++ {
+			total *= len(values)
+		}
+		for code := 1; code < total; code++ {
+			a := make([]int, n)
+			for i, c := 0, code; i < n; i++ {
+				a[i], c = c%len(values), c/len(values)
+			}
+			assigns = append(assigns, a)
+		}
+	} else {
+		for v := 1; v < len(values); v++ {
+			a := make([]int, n)
+			for i := range a {
+				a[i] = v
+			}
+			assigns = append(assigns, a)
+		}
+		for i := 0; i < n; i++ {
+			for vi := 1; vi < len(values); vi++ {
+				a := make([]int, n)
+				a[i] = vi
+				assigns = append(assigns, a)
+				for j := i + 1; j < n; j++ {
+					for vj := 1; vj < len(values); vj++ {
+						b := append([]int{}, a...)
+						b[j] = vj
+						assigns = append(assigns, b)
+					}
+				}
+			}
+		}
+	}
+	c1, c2, c3 := big.NewInt(12345), big.NewInt(12346), big.NewInt(99991)
+	r.Sample(map[string]any{"component": name, "degenerate_field_groups": classes, "assignments": len(assigns)})
+	for _, a := range assigns {
+		if _, mine := r.Next(); !mine {
+			continue
+		}
+		if r.Expired() {
+			return
+		}
+		desc := ""
+		for i, c := range classes {
+			if a[i] != 0 {
+				desc += fmt.Sprintf("%s=%s ", c, vname[a[i]])
+				for _, lf := range byClass[c] {
+					lf.set(new(big.Int).Set(values[a[i]]))
+				}
+			}
+		}
+		r.Eval()
+		r.Nontrivial(name + "|degenerate|" + desc)
+		var ok1, ok2, ok3 bool
+		var l1, l2, l3 []*big.Int
+		pan, _ := vkit.Guard(func() {
+			if ok1, l1 = verify(c1); ok1 {
+				if ok2, l2 = verify(c2); ok2 {
+					ok3, l3 = verify(c3)
+				}
+			}
+		})
+		for _, c := range classes {
+			for i, lf := range byClass[c] {
+				lf.set(orig[c][i])
+			}
+		}
+		switch {
+		case pan:
+			r.Outcome(name + ":degenerate:panic")
+		case ok1 && ok2 && ok3 && len(l1) > 0 && hasZeroCommitment(l1):
+			// VerifyProof refuses a reconstructed list with a zero entry
+			r.Outcome(name + ":degenerate:refused-zero-commitment")
+		case ok1 && ok2 && ok3 && len(l1) > 0 && c17SameList(l1, l2) && c17SameList(l1, l3):
+			r.Outcome(name + ":degenerate:challenge-independent")
+			r.Violate("C17|challenge-independent-transcript-accepted|"+name, fmt.Sprintf("%s with %s: structure accepted and the reconstructed commitments do not depend on the challenge (forgeable without a witness)", name, desc), map[string]any{"component": name, "assignment": desc})
+		default:
+			r.Outcome(name + ":degenerate:challenge-dependent-or-refused")
 		}
 	}
 }
@@ -157,6 +339,12 @@ func TestVerifC17Components(t *testing.T) {
 				return false, nil
 			}
 			return true, s.commitmentsFromProof(g47, nil, ch, proof)
+		})
+		c17Degenerate(r, "pedersen", g47.P, []any{&proof}, func(c *big.Int) (bool, []*big.Int) {
+			if !s.verifyProofStructure(proof) {
+				return false, nil
+			}
+			return true, s.commitmentsFromProof(g47, nil, c, proof)
 		})
 	}
 	// addition and multiplication (a op b = d mod n)
@@ -189,6 +377,16 @@ func TestVerifC17Components(t *testing.T) {
 				}
 				return true, s.commitmentsFromProof(g47, nil, ch, &bp, &pd, proof)
 			})
+			c17Degenerate(r, op, g47.P, []any{&proof, &a1p, &a2p, &mp, &rp}, func(c *big.Int) (bool, []*big.Int) {
+				if !s.verifyProofStructure(proof) || !a1s.verifyProofStructure(a1p) || !a2s.verifyProofStructure(a2p) || !mods.verifyProofStructure(mp) || !results.verifyProofStructure(rp) {
+					return false, nil
+				}
+				l := a1s.commitmentsFromProof(g47, nil, c, a1p)
+				l = a2s.commitmentsFromProof(g47, l, c, a2p)
+				l = mods.commitmentsFromProof(g47, l, c, mp)
+				l = results.commitmentsFromProof(g47, l, c, rp)
+				return true, s.commitmentsFromProof(g47, l, c, &bp, &pd, proof)
+			})
 		} else {
 			s := newMultiplicationProofStructure("a1", "a2", "mod", "result", 3)
 			ls, commit := s.commitmentsFromSecrets(g47, nil, &bases, &secrets)
@@ -198,6 +396,16 @@ func TestVerifC17Components(t *testing.T) {
 					return false, nil
 				}
 				return true, s.commitmentsFromProof(g47, nil, ch, &bp, &pd, proof)
+			})
+			c17Degenerate(r, op, g47.P, []any{&proof, &a1p, &a2p, &mp, &rp}, func(c *big.Int) (bool, []*big.Int) {
+				if !s.verifyProofStructure(proof) || !a1s.verifyProofStructure(a1p) || !a2s.verifyProofStructure(a2p) || !mods.verifyProofStructure(mp) || !results.verifyProofStructure(rp) {
+					return false, nil
+				}
+				l := a1s.commitmentsFromProof(g47, nil, c, a1p)
+				l = a2s.commitmentsFromProof(g47, l, c, a2p)
+				l = mods.commitmentsFromProof(g47, l, c, mp)
+				l = results.commitmentsFromProof(g47, l, c, rp)
+				return true, s.commitmentsFromProof(g47, l, c, &bp, &pd, proof)
 			})
 		}
 	}
@@ -230,6 +438,16 @@ func TestVerifC17Components(t *testing.T) {
 			}
 			return true, s.commitmentsFromProof(g47, nil, ch, &pb, &pp, proof)
 		})
+		c17Degenerate(r, fmt.Sprintf("exp(%d^%d mod %d)", tc[0], tc[1], tc[2]), g47.P, []any{&proof, &aP, &bP, &nP, &rP}, func(c *big.Int) (bool, []*big.Int) {
+			if !s.verifyProofStructure(c, proof) || !as.verifyProofStructure(aP) || !bs.verifyProofStructure(bP) || !ns.verifyProofStructure(nP) || !rs.verifyProofStructure(rP) {
+				return false, nil
+			}
+			l := as.commitmentsFromProof(g47, nil, c, aP)
+			l = bs.commitmentsFromProof(g47, l, c, bP)
+			l = ns.commitmentsFromProof(g47, l, c, nP)
+			l = rs.commitmentsFromProof(g47, l, c, rP)
+			return true, s.commitmentsFromProof(g47, l, c, &pb, &pp, proof)
+		})
 	}
 	// prime
 	{
@@ -261,6 +479,13 @@ func TestVerifC17Components(t *testing.T) {
 				}
 				return true, s.commitmentsFromProof(g, nil, ch, &bp, &pP, proof)
 			})
+			c17Degenerate(r, "prime(11)", g.P, []any{&proof, &pP}, func(c *big.Int) (bool, []*big.Int) {
+				if !s.verifyProofStructure(c, proof) || !ps.verifyProofStructure(pP) {
+					return false, nil
+				}
+				l := ps.commitmentsFromProof(g, nil, c, pP)
+				return true, s.commitmentsFromProof(g, l, c, &bp, &pP, proof)
+			})
 		}
 	}
 	// is-square
@@ -274,6 +499,12 @@ func TestVerifC17Components(t *testing.T) {
 				return false, nil
 			}
 			return true, s.commitmentsFromProof(g, nil, ch, proof)
+		})
+		c17Degenerate(r, "is-square(36,49 mod 77)", g.P, []any{&proof}, func(c *big.Int) (bool, []*big.Int) {
+			if !s.verifyProofStructure(proof) {
+				return false, nil
+			}
+			return true, s.commitmentsFromProof(g, nil, c, proof)
 		})
 	}
 }
